@@ -565,19 +565,18 @@ func (s *Store[K, V]) DeleteWithSecondary(key K) error {
 		shard.delete(entry)
 	}
 	// the key may live in the secondary cache only (evicted from memory)
+	var err error
 	if s.secondaryCache != nil {
-		err := s.secondaryCache.Delete(key)
-		if err != nil {
-			shard.mu.Unlock()
-			return err
-		}
+		err = s.secondaryCache.Delete(key)
 	}
 	shard.mu.Unlock()
+	// the entry has left the map whatever the secondary cache answered: the
+	// policy must hear of it, or it keeps an entry nobody can reach
 	if ok {
 		verifPoint(vpBeforeEvent)
 		s.sendEvent(WriteBufItem[K, V]{entry: entry, code: REMOVE})
 	}
-	return nil
+	return err
 }
 
 func (s *Store[K, V]) Len() int {
